@@ -94,10 +94,14 @@ def check_pair(ctx, a, b, tag, defs=None):
     ctx.case((enc.tree(ta), enc.tree(tb)), enc.tree(ta) != enc.tree(tb) and not da.isempty() and not db.isempty(),
              sample={"A": repr(a), "B": repr(b), "eq": got["eq"][1]})
     if trace_problems and not problems:
-        # same answers, different run: the mirror model no longer describes the code's loop (C09/hk_trace)
-        ctx.violation("C09/hk_trace: the union-find run of NFA.__eq__ differs from the mirror model: " + "; ".join(trace_problems),
-                      {"kind": "pair", "A": repr(a.input_parameters), "B": repr(b.input_parameters),
-                       "problems": trace_problems, "tag": tag}, confirmed=False)
+        # same answers, different run: the code's loop is no longer the one the mirror model describes (a different
+        # union-find, agenda or expansion order). The property fixes the boolean only - decided above against the
+        # specification model, which is proved to be language equality - so this is a structural difference, counted
+        # and shown in the evidence, not a violation.
+        ctx.structural += 1
+        ctx.tally("hk_trace_differs_from_mirror_model")
+        if len(ctx.notes) < 3:
+            ctx.notes.append("hk_trace differs: " + "; ".join(trace_problems)[:300])
         return
     problems += trace_problems
     if problems:
